@@ -59,6 +59,10 @@ class TupleV(tuple):
     pass
 
 
+class UnboundName(OutOfSubset):
+    """a name that is not bound in the current state (in program code: Python raises UnboundLocalError / NameError there)"""
+
+
 class SList:
     """Python list of arrays / scalars whose length may be symbolic (`ci.append(...)` inside a loop).  Only the slots the code
     provably addresses are tracked: slots = [(index term, value)], newest last.  An index is resolved against a slot when
@@ -248,6 +252,9 @@ modsum = z3.Function('modsum', A2R, A1I, INT, INT, INT, REAL)    # modsum(W, ci,
 modsumT = z3.Function('modsumT', A2R, A1I, INT, INT, INT, REAL)  # modsumT(W, ci, x, m, n) = sum_{y<n, ci[y]=m+1} W[y][x]
 degsum = z3.Function('degsum', A2R, A1I, INT, INT, REAL)         # degsum(W, ci, m, n)  = sum_{x<n, ci[x]=m+1} rowsum(W, x)   (module out-degree)
 degsumT = z3.Function('degsumT', A2R, A1I, INT, INT, REAL)       # degsumT(W, ci, m, n) = sum_{x<n, ci[x]=m+1} colsum(W, x)   (module in-degree)
+frow = z3.Function('frow', INT, INT, INT)        # frow(i, ncols), fcol(i, ncols): cell denoted by the flat (row-major) position i
+fcol = z3.Function('fcol', INT, INT, INT)
+fvalid = z3.Function('fvalid', INT, INT, INT, BOOL)  # fvalid(i, nrows, ncols): i is a valid flat position (0 <= i < nrows*ncols)
 agg = z3.Function('agg', A2R, A1I, INT, INT, INT, REAL)          # agg(W, ci, a, b, n) = sum_{x,y<n, ci[x]=a+1, ci[y]=b+1} W[x][y]
 tsum = z3.Function('tsum', A2R, INT, REAL)                       # sum of all entries
 trace1 = z3.Function('trace1', A2R, INT, REAL)
@@ -480,7 +487,15 @@ class Engine:
         ko = self.stmt_ord.get(id(node))
         if ko is not None and ko in table:
             return ko
-        return key if key in table else None
+        if key in table:
+            return key
+        # anchors may be shell-style patterns (`CIJ.flat[*] = *`): the ghost code is then attached to the statement whatever its
+        # operands are, so that an edit of the operands is judged by the obligations instead of leaving the contract unbound
+        import fnmatch
+        for k in table:
+            if ('*' in k) and fnmatch.fnmatchcase(key, k.replace('[', '[[]')):
+                return k
+        return None
 
     # ---- purification of array terms that flow into uninterpreted spec functions -----------------------------------
     def pure(self, term):
@@ -543,7 +558,7 @@ class Engine:
             return Opaque('builtin', name=node.id)
         if node.id in self.callees:
             return Opaque('callee', name=node.id)
-        raise OutOfSubset('unknown name %s' % node.id)
+        raise UnboundName('unknown name %s' % node.id)
 
     def ev_Tuple(self, node, st):
         return TupleV(self.ev(e, st) for e in node.elts)
@@ -715,10 +730,26 @@ class Engine:
             return Opaque('method', obj=base, name=node.attr)
         if isinstance(base, Opaque) and base.kind in ('rng',):
             return Opaque('method', obj=base, name=node.attr)
+        if isinstance(base, Opaque) and base.kind == 'extmod':
+            return Opaque('extmod', name=base.name + '.' + node.attr)
         raise OutOfSubset('attribute %s' % ast.unparse(node))
 
     def ev_Subscript(self, node, st):
         base = self.ev(node.value, st)
+        if isinstance(base, Opaque) and base.kind == 'range':
+            # range(a, b)[i] / range(a, b, -1)[i] (the step must be the literal 1 or -1): start + i * step, i within the length
+            if isinstance(node.slice, ast.Slice):
+                raise OutOfSubset('slice of a range')
+            a = base.args
+            lo, hi = (0, a[0]) if len(a) == 1 else (a[0], a[1])
+            step = a[2] if len(a) == 3 else 1
+            if step not in (1, -1) or isinstance(step, bool):
+                raise OutOfSubset('range step %r' % (step,))
+            lo, hi = to_z3(lo, INT), to_z3(hi, INT)
+            ln = (hi - lo) if step == 1 else (lo - hi)
+            idx = to_z3(self.ev(node.slice, st), INT)
+            self.oblige(st, 'bounds/range:%s' % ast.unparse(node)[:24], z3.And(idx >= 0, idx < ln), kind='safety')
+            return z3.simplify(lo + idx) if step == 1 else z3.simplify(lo - idx)
         if isinstance(base, SList):
             if isinstance(node.slice, ast.Slice):
                 raise OutOfSubset('slice of a list')
@@ -753,6 +784,11 @@ class Engine:
                 return self.builtin(st, f.name, args, kw, node)
             if f.kind == 'callee':
                 return self.callees[f.name](self, st, args, kw, node)
+            if f.kind == 'extmod':
+                spec = self.np.EXT_SPECS.get(f.name)
+                if spec is None:
+                    raise OutOfSubset('library routine %s has no specification' % f.name)
+                return spec(self, st, args, kw, node)
         raise OutOfSubset('call %s' % ast.unparse(node))
 
     def builtin(self, st, name, args, kw, node):
@@ -959,7 +995,19 @@ class Engine:
             m = getattr(self, 'st_' + type(node).__name__, None)
             if m is None:
                 raise OutOfSubset('statement %s: %s' % (type(node).__name__, ast.unparse(node)[:60]))
-            res = m(node, st)
+            if isinstance(node, (ast.Assign, ast.AugAssign, ast.Expr, ast.Return)) and not getattr(self, 'in_spec', 0):
+                # a simple statement that reads a local which is not bound on this path raises UnboundLocalError in Python: the
+                # path ends with that exception (no ensures clause applies to it; it shows up in the raise paths of the contract)
+                s_try = st.fork()
+                try:
+                    res = m(node, s_try)
+                    st.env, st.heap, st.pc, st.ghost = s_try.env, s_try.heap, s_try.pc, s_try.ghost
+                    res = [(st if s_ is s_try else s_, o) for s_, o in res]
+                except UnboundName as e:
+                    self.unbound_reads = getattr(self, 'unbound_reads', []) + ['%s: %s' % (ast.unparse(node)[:60], e)]
+                    res = [(st, ('raise', ExcV('UnboundLocalError', ())))]
+            else:
+                res = m(node, st)
         ka = self._lookup(self.c.ghost_after, node, key)
         kas = self._lookup(self.c.assume_after, node, key)
         if ka is not None or kas is not None:
@@ -1039,6 +1087,9 @@ class Engine:
             if (a.asname or a.name) == 'round' and a.name == 'teachers_round':
                 continue          # `round` then denotes teachers_round (callee contract registered under both names)
             if a.name in self.callees and a.asname in (None, a.name):
+                continue
+            if node.module == 'scipy' and a.name in ('linalg', 'stats') and a.asname is None:
+                st.env[a.name] = Opaque('extmod', name=a.name)       # only the routines with a spec in npspec.EXT_SPECS can be called
                 continue
             raise OutOfSubset('import %s' % ast.unparse(node))
         return [(st, 'fall')]
@@ -1312,6 +1363,21 @@ class Engine:
         lists = spec.get('lists', {})
         shapes = spec.get('shapes', {})
         later = []
+        # arrays first bound INSIDE the loop body and read after the loop (or in a later iteration): at the head of an arbitrary
+        # iteration they are arbitrary arrays of the declared rank/shape; the invariant may speak about them only under a guard
+        # that is concretely false before the first iteration
+        for nm, (kind, *dims) in spec.get('declare', {}).items():
+            if nm in st.env:
+                continue
+            if nm not in names:
+                raise ContractError('declared loop-carried name %s is not assigned in the loop' % nm)
+            shp = tuple(self.ev_str(d, st) for d in dims)
+            if kind == 'mat':
+                st.env[nm] = alloc(st, 2, fresh('hv_' + nm, A2R), shp, REAL)
+            elif kind == 'int1':
+                st.env[nm] = alloc(st, 1, fresh('hv_' + nm, A1I), shp, INT)
+            else:
+                raise ContractError('declare kind %s' % kind)
         for nm in sorted(names):
             v = st.env.get(nm)
             if v is None and nm not in st.env:
@@ -1660,6 +1726,32 @@ def _sb_forall(eng, st, node):
     return z3.ForAll(vs, body)
 
 
+def _sb_exists(eng, st, node):
+    lam = node.args[0]
+    if not isinstance(lam, ast.Lambda):
+        raise ContractError('exists needs a lambda')
+    names = [a.arg for a in lam.args.args]
+    vs = [fresh('e_' + n, INT) for n in names]
+    saved = {n: st.ghost.get(n) for n in names}
+    for n, v in zip(names, vs):
+        st.ghost[n] = v
+    shadow = {n: st.env.pop(n) for n in names if n in st.env}
+    if not hasattr(eng, 'bound_stack'):
+        eng.bound_stack = []
+    eng.bound_stack.append(vs)
+    try:
+        body = truth(eng.ev(lam.body, st))
+    finally:
+        eng.bound_stack.pop()
+        for n in names:
+            if saved[n] is None:
+                st.ghost.pop(n, None)
+            else:
+                st.ghost[n] = saved[n]
+        st.env.update(shadow)
+    return z3.Exists(vs, body)
+
+
 def _sb_implies(eng, st, node):
     a = truth(eng.ev(node.args[0], st))
     if z3.is_false(z3.simplify(a)):
@@ -1999,6 +2091,111 @@ def _sb_lemma_agg_identity(eng, st, node):
     return z3.Implies(hyp, z3.ForAll([a, b], z3.Implies(z3.And(a >= 0, a < n, b >= 0, b < n), agg(W, c, a, b, n) == z3.Select(z3.Select(W, a), b)), patterns=[agg(W, c, a, b, n)]))
 
 
+def _sb_lemma_flat_count(eng, st, node):
+    """LEMMA (Lean: card_offdiag_enum / card_upper_enum): an enumeration without repetition of exactly the off-diagonal (resp. strictly
+    upper-triangular) cells of an n x n array has n*n - n (resp. (n*n - n)/2) entries.  lemma_flat_count(ix, n, 'offdiag'|'upper'):
+    ix is the array of flat positions, its cells are (frow(ix[e], n), fcol(ix[e], n))."""
+    v = eng.ev(node.args[0], st)
+    if not isinstance(v, Ref):
+        raise ContractError('lemma_flat_count: index array expected')
+    ix = eng.pure(st.heap[v.oid].term)
+    kf = to_z3(st.heap[v.oid].shape[0], INT)
+    n = to_z3(eng.ev(node.args[1], st), INT)
+    kind = eng.ev(node.args[2], st)
+    e, f, x, y = z3.Ints('e!fc f!fc x!fc y!fc')
+    r_ = lambda t: frow(z3.Select(ix, t), n)
+    c_ = lambda t: fcol(z3.Select(ix, t), n)
+    cond = (lambda a, b: a != b) if kind == 'offdiag' else (lambda a, b: a < b)
+    fw = st.heap[v.oid].meta.get('fwid')
+    if fw is not None:
+        # the witness of "every such cell is enumerated" is the index function of the np.where result (same statement as an exists)
+        cover = lambda xx, yy: z3.And(fw(xx, yy) >= 0, fw(xx, yy) < kf, r_(fw(xx, yy)) == xx, c_(fw(xx, yy)) == yy)
+    else:
+        cover = lambda xx, yy: z3.Exists([e], z3.And(e >= 0, e < kf, r_(e) == xx, c_(e) == yy))
+    hyp = z3.And(kf >= 0, n >= 0,
+                 z3.ForAll([e], z3.Implies(z3.And(e >= 0, e < kf), z3.And(r_(e) >= 0, r_(e) < n, c_(e) >= 0, c_(e) < n, cond(r_(e), c_(e))))),
+                 z3.ForAll([e, f], z3.Implies(z3.And(e >= 0, e < f, f < kf), z3.Or(r_(e) != r_(f), c_(e) != c_(f)))),
+                 z3.ForAll([x, y], z3.Implies(z3.And(x >= 0, x < n, y >= 0, y < n, cond(x, y)), cover(x, y))))
+    if kind == 'offdiag':
+        return z3.Implies(hyp, kf == n * n - n)
+    if kind == 'upper':
+        return z3.Implies(hyp, 2 * kf == n * n - n)
+    raise ContractError('lemma_flat_count kind %r' % (kind,))
+
+
+def _sb_lemma_image_count(eng, st, node):
+    """LEMMA (Lean: tsum_indicator_of_injective_cells): if k pairwise distinct cells (r[t], c[t]), t < k, of an n x n matrix M hold 1 and
+    every other cell holds 0, the sum of M is k.  lemma_image_count(M, r, c, k, n)."""
+    M = _term2(eng, st, eng.ev(node.args[0], st))
+
+    def raw1(v):      # the index rows are used in Select positions only (never in patterns): keep the lambda terms, they beta-reduce
+        if isinstance(v, Row):
+            v = eng.np.materialise(eng, st, v)
+        if not isinstance(v, Ref):
+            raise ContractError('1-D int array expected')
+        return st.heap[v.oid].term
+    rv = eng.ev(node.args[1], st)
+    r = raw1(rv)
+    c = raw1(eng.ev(node.args[2], st))
+    k = to_z3(eng.ev(node.args[3], st), INT)
+    n = to_z3(eng.ev(node.args[4], st), INT)
+    t, u, x, y = z3.Ints('t!ic u!ic x!ic y!ic')
+    w = st.heap[rv.oid].meta.get('where_idx') if isinstance(rv, Ref) and st.heap[rv.oid].meta.get('where_cond') is not None else None
+    extra = []
+    if w is not None:
+        # the rows come from a 2-D np.where: "some t enumerates the cell" is stated through its index function w, together with
+        # the fact that w finds every enumerated cell (then it is equivalent to the existential form of the Lean theorem)
+        hit = lambda xx, yy: z3.And(w(xx, yy) >= 0, w(xx, yy) < k, z3.Select(r, w(xx, yy)) == xx, z3.Select(c, w(xx, yy)) == yy)
+        extra = [z3.ForAll([t], z3.Implies(z3.And(t >= 0, t < k), hit(z3.Select(r, t), z3.Select(c, t))))]
+    else:
+        hit = lambda xx, yy: z3.Exists([t], z3.And(t >= 0, t < k, z3.Select(r, t) == xx, z3.Select(c, t) == yy))
+    hyp = z3.And(k >= 0, *extra,
+                 z3.ForAll([t], z3.Implies(z3.And(t >= 0, t < k), z3.And(z3.Select(r, t) >= 0, z3.Select(r, t) < n, z3.Select(c, t) >= 0, z3.Select(c, t) < n))),
+                 z3.ForAll([t, u], z3.Implies(z3.And(t >= 0, t < u, u < k), z3.Or(z3.Select(r, t) != z3.Select(r, u), z3.Select(c, t) != z3.Select(c, u)))),
+                 z3.ForAll([x, y], z3.Implies(z3.And(x >= 0, x < n, y >= 0, y < n), z3.Select(z3.Select(M, x), y) == z3.If(hit(x, y), z3.RealVal(1), z3.RealVal(0)))))
+    hyp = z3.And(hyp, n >= 0)
+    return z3.Implies(hyp, tsum(M, n) == z3.ToReal(k))
+
+
+def _sb_lemma_tsum_plus_transpose(eng, st, node):
+    """LEMMA (Lean: tot_add_transpose): if S[x][y] == A[x][y] + A[y][x] for all cells then tsum(S) == 2 tsum(A).  lemma_tsum_plus_transpose(A, S, n)."""
+    A = _term2(eng, st, eng.ev(node.args[0], st))
+    S = _term2(eng, st, eng.ev(node.args[1], st))
+    n = to_z3(eng.ev(node.args[2], st), INT)
+    x, y = z3.Ints('x!tt y!tt')
+    hyp = z3.ForAll([x, y], z3.Implies(z3.And(x >= 0, x < n, y >= 0, y < n), z3.Select(z3.Select(S, x), y) == z3.Select(z3.Select(A, x), y) + z3.Select(z3.Select(A, y), x)))
+    return z3.Implies(hyp, tsum(S, n) == 2 * tsum(A, n))
+
+
+def _sb_lemma_tsum_add(eng, st, node):
+    """LEMMA (Lean: tot_add): S[x][y] == A[x][y] + B[x][y] for all cells => tsum(S) == tsum(A) + tsum(B).  lemma_tsum_add(A, B, S, n)."""
+    A = _term2(eng, st, eng.ev(node.args[0], st))
+    B = _term2(eng, st, eng.ev(node.args[1], st))
+    S = _term2(eng, st, eng.ev(node.args[2], st))
+    n = to_z3(eng.ev(node.args[3], st), INT)
+    x, y = z3.Ints('x!ta y!ta')
+    hyp = z3.ForAll([x, y], z3.Implies(z3.And(x >= 0, x < n, y >= 0, y < n), z3.Select(z3.Select(S, x), y) == z3.Select(z3.Select(A, x), y) + z3.Select(z3.Select(B, x), y)))
+    return z3.Implies(hyp, tsum(S, n) == tsum(A, n) + tsum(B, n))
+
+
+def _sb_lemma_tsum_int(eng, st, node):
+    """LEMMA (Lean: tot_int): a matrix of integers has an integer sum.  lemma_tsum_int(M, n)."""
+    M = _term2(eng, st, eng.ev(node.args[0], st))
+    n = to_z3(eng.ev(node.args[1], st), INT)
+    x, y = z3.Ints('x!ti y!ti')
+    hyp = z3.ForAll([x, y], z3.Implies(z3.And(x >= 0, x < n, y >= 0, y < n), z3.IsInt(z3.Select(z3.Select(M, x), y))))
+    return z3.Implies(hyp, z3.IsInt(tsum(M, n)))
+
+
+def _sb_lemma_full_offdiag(eng, st, node):
+    """LEMMA (Lean: tot_offdiag_ones): M[x][y] == 1 off the diagonal and 0 on it => tsum(M) == n*n - n.  lemma_full_offdiag(M, n)."""
+    M = _term2(eng, st, eng.ev(node.args[0], st))
+    n = to_z3(eng.ev(node.args[1], st), INT)
+    x, y = z3.Ints('x!fo y!fo')
+    hyp = z3.And(n >= 0, z3.ForAll([x, y], z3.Implies(z3.And(x >= 0, x < n, y >= 0, y < n), z3.Select(z3.Select(M, x), y) == z3.If(x != y, z3.RealVal(1), z3.RealVal(0)))))
+    return z3.Implies(hyp, tsum(M, n) == z3.ToReal(n * n - n))
+
+
 def _sb_lemma_relabel_g(eng, st, node):
     """LEMMA (Lean: Qraw_relabel): the un-normalised quality depends on the labels only through the equality pattern.
     lemma_relabel_g(M, c1, c2, gamma, sd, n)."""
@@ -2163,6 +2360,7 @@ SPEC_BUILTINS = {
     'dot2': _sb_dot2, 'isperm': _sb_isperm, 'same_object': _sb_same_object, 'unchanged': _sb_unchanged,
     'snapshot': _sb_snapshot, 'argref': _sb_argref, 'lam1': _sb_lam1, 'KCf': _sb_KCf, 'KNf': _sb_KNf, 'result_is_empty': _sb_result_is_empty, 'hopsint': _sb_hopsint, 'lam2': _sb_lam2, 'unique_witness': _sb_unique_witness, 'member': _sb_member, 'dset': _sb_dset(dset), 'rset': _sb_dset(rset), 'wset': _sb_dset(wset), 'cntb': _sb_cntb,
     'modsum': _mk_mod(modsum, 3), 'modsumT': _mk_mod(modsumT, 3), 'degsum': _mk_mod(degsum, 2), 'degsumT': _mk_mod(degsumT, 2), 'agg': _mk_mod(agg, 3),
-    'Qmod': _sb_Qmod, 'walk': _sb_walk, 'isint': (lambda eng, st, node: z3.IsInt(to_z3(eng.ev(node.args[0], st), REAL))), 'sdist': _sb_sdist, 'lemma_walks': _sb_lemma_walks, 'Qrawg': _sb_Qrawg, 'umul': _sb_umul, 'lemma_umul_linear': _sb_lemma_umul_linear, 'QrawB': _mk_mod(QrawB, 1), 'tsum': _mk_specfn(tsum, 1), 'csum': _mk_specfn(csum, 2), 'lemma_modularity': _sb_lemma_modularity, 'lemma_knm_sums': _sb_lemma_knm_sums, 'lemma_relabel': _sb_lemma_relabel, 'lemma_relabel_g': _sb_lemma_relabel_g, 'lemma_agg_compose': _sb_lemma_agg_compose, 'lemma_agg_symm': _sb_lemma_agg_symm, 'lemma_agg_identity': _sb_lemma_agg_identity, 'lemma_q_from_aggregate': _sb_lemma_q_from_aggregate,
+    'Qmod': _sb_Qmod, 'walk': _sb_walk, 'isint': (lambda eng, st, node: z3.IsInt(to_z3(eng.ev(node.args[0], st), REAL))), 'sdist': _sb_sdist, 'lemma_walks': _sb_lemma_walks, 'Qrawg': _sb_Qrawg, 'umul': _sb_umul, 'lemma_umul_linear': _sb_lemma_umul_linear, 'QrawB': _mk_mod(QrawB, 1), 'tsum': _mk_specfn(tsum, 1), 'csum': _mk_specfn(csum, 2), 'lemma_modularity': _sb_lemma_modularity, 'lemma_knm_sums': _sb_lemma_knm_sums, 'lemma_relabel': _sb_lemma_relabel, 'lemma_relabel_g': _sb_lemma_relabel_g, 'lemma_agg_compose': _sb_lemma_agg_compose, 'lemma_flat_count': _sb_lemma_flat_count, 'exists': _sb_exists, 'lemma_tsum_add': _sb_lemma_tsum_add, 'lemma_tsum_int': _sb_lemma_tsum_int, 'lemma_full_offdiag': _sb_lemma_full_offdiag, 'flat_store_rows': (lambda eng, st, node: st.ghost['_flat_store'][0]), 'flat_store_cols': (lambda eng, st, node: st.ghost['_flat_store'][1]), 'flat_store_len': (lambda eng, st, node: st.ghost['_flat_store'][2]), 'lemma_tsum_plus_transpose': _sb_lemma_tsum_plus_transpose, 'lemma_image_count': _sb_lemma_image_count,
+    'frow': (lambda eng, st, node: frow(to_z3(eng.ev(node.args[0], st), INT), to_z3(eng.ev(node.args[1], st), INT))), 'fcol': (lambda eng, st, node: fcol(to_z3(eng.ev(node.args[0], st), INT), to_z3(eng.ev(node.args[1], st), INT))), 'lemma_agg_symm': _sb_lemma_agg_symm, 'lemma_agg_identity': _sb_lemma_agg_identity, 'lemma_q_from_aggregate': _sb_lemma_q_from_aggregate,
     'lemma_masked_degree': _sb_lemma_masked_degree, 'lemma_degree_monotone': _sb_lemma_degree_monotone, 'result': _sb_result, 'raised': _sb_raised, 'shape_is': _sb_shape_is,
 }
